@@ -73,3 +73,36 @@ pub proof fn lemma_nibbles()
     assert(forall|x: usize| x < 65536 ==> #[trigger] ((x >> 4) & 0xF) == x / 16 % 16 && ((x >> 4) & 0xF) < 16) by (bit_vector);
     assert(forall|x: usize| x < 65536 ==> #[trigger] (x & 0xF) == x % 16 && (x & 0xF) < 16) by (bit_vector);
 }
+
+// One loop iteration of copy_chunked_async, proved away from the 64 KiB buffer context:
+// given the framing bytes the code stored into `b` and the new read event, the trimmed slice is
+// chunk(piece) and every history-derived quantity advances by exactly that piece.
+pub proof fn lemma_chunk_step(hs: Seq<Ev>, k: int, hist: Seq<Ev>, b: Seq<u8>, len: int, bytes: Seq<u8>)
+    requires
+        1 <= len <= 65528, b.len() == 65536, 0 <= k <= hs.len(),
+        hist.len() == hs.len() + 1, hist.drop_last() == hs,
+        hist.last() is Data, hist.last()->Data_0 == b.subrange(6, 6 + len),
+        b[0] == hexd(len / 4096 % 16), b[1] == hexd(len / 256 % 16), b[2] == hexd(len / 16 % 16), b[3] == hexd(len % 16),
+        b[4] == 13, b[5] == 10, b[6 + len] == 13, b[7 + len] == 10,
+        bytes == skip_prefix(b.subrange(0, 6 + len + 2), 48u8),
+        data_only(hs.skip(k)), pieces_ok(pieces(hs.skip(k))),
+    ensures
+        bytes == chunk(b.subrange(6, 6 + len)),
+        data_only(hist.skip(k)), pieces_ok(pieces(hist.skip(k))),
+        enc(pieces(hist.skip(k))) == enc(pieces(hs.skip(k))) + chunk(b.subrange(6, 6 + len)),
+        bytes_of(hist.skip(k)) == bytes_of(hs.skip(k)) + b.subrange(6, 6 + len),
+        bytes_of(hist) == bytes_of(hs) + b.subrange(6, 6 + len),
+{
+    let piece = b.subrange(6, 6 + len);
+    let fb = b.subrange(0, 6 + len + 2);
+    lemma_frame(fb, len);
+    assert(fb.subrange(6, 6 + len) =~= piece);
+    assert(hist =~= hs.push(Ev::Data(piece)));
+    assert(hist.skip(k) =~= hs.skip(k).push(Ev::Data(piece)));
+    lemma_pieces_push(hs.skip(k), Ev::Data(piece));
+    lemma_pieces_push(hs, Ev::Data(piece));
+    lemma_enc_push(pieces(hs.skip(k)), piece);
+    assert forall|i: int| 0 <= i < pieces(hist.skip(k)).len() implies 1 <= (#[trigger] pieces(hist.skip(k))[i]).len() <= 65528 by {
+        if i < pieces(hs.skip(k)).len() { assert(pieces(hist.skip(k))[i] == pieces(hs.skip(k))[i]); }
+    }
+}
